@@ -612,47 +612,63 @@ def mergeTrailers (cfg : Cfg) (st : St) : St :=
       | none => hs) st.headers
     { st with headers := hdrUnset hs nTrailer, trailerBuf := [] }
 
+/-- http_response_write_prepare(), first part: responses without body and error documents -/
+def wpStatus (st : St) : St :=
+  if st.status = 204 || st.status = 205 then
+    { (bodyClear { st with headers := hdrUnset st.headers nContentLength } true) with finished := true }
+  else if st.status = 304 then { (bodyClear st true) with finished := true }
+  else if st.status = 200 then st
+  else if st.status ≥ 400 && st.status < 600 then staticErrdoc st
+  else st
+
+/-- neither Content-Length nor Transfer-Encoding is set on the response -/
+def noLen (st : St) : Bool := !hasHdr st.headers nContentLength && !hasHdr st.headers nTransferEncoding
+
+/-- ... the response body is complete: make sure its length is announced -/
+def wpSetLength (cfg : Cfg) (st : St) : St :=
+  if noLen st then
+    if st.wq.length > 0 then
+      { st with headers := hdrSet st.headers (ofString "Content-Length") (natToDec st.wq.length) }
+    else if !cfg.head && st.status ≠ 204 && st.status ≠ 304 then
+      { st with headers := hdrSet st.headers (ofString "Content-Length") (ofString "0") }
+    else st
+  else st
+
+/-- ... the response body is not complete yet (HTTP/1.x): without a length from the backend use
+    chunked encoding (HTTP/1.1; when passing the backend's chunked encoding through, the partially
+    decoded chunk is reconstituted) or give up keep-alive (HTTP/1.0) -/
+def wpStartStreaming (cfg : Cfg) (st : St) : St :=
+  if noLen st && !hasHdr st.headers nUpgrade then
+    if cfg.ver = 1 then
+      let qlen0 := st.wq.length
+      let (qlen, tail) : Nat × Bytes :=
+        if st.decodeChunked then
+          match st.dc with
+          | some d =>
+            if dcTe d.mode ≥ 2 then (qlen0 + (dcTe d.mode - 2), [])
+            else if dcTe d.mode = 1 then (qlen0, [cr])
+            else (qlen0, (if qlen0 ≠ 0 then crlf else []) ++ dcBuf d.mode)
+          | none => (qlen0, [])
+        else (qlen0, if qlen0 ≠ 0 then crlf else [])
+      let body := st.wq ++ tail
+      let wq' := if qlen ≠ 0 then hexLcEven qlen ++ crlf ++ body else body
+      { st with sendChunked := true, wq := wq',
+                headers := hdrAppend st.headers (ofString "Transfer-Encoding") (ofString "chunked") }
+    else { st with keepAlive := false }
+  else st
+
+def wpLength (cfg : Cfg) (st : St) : St :=
+  if st.finished then wpSetLength cfg st
+  else if cfg.ver ≥ 2 then st
+  else wpStartStreaming cfg st
+
+/-- ... HEAD: like GET without the content -/
+def wpHead (cfg : Cfg) (st : St) : St :=
+  if cfg.head then { (bodyClear st true) with finished := true } else st
+
 /-- http_response_write_prepare() -/
-def writePrepare (cfg : Cfg) (st0 : St) : St :=
-  let st1 : St :=
-    if st0.status = 204 || st0.status = 205 then
-      { (bodyClear { st0 with headers := hdrUnset st0.headers nContentLength } true) with finished := true }
-    else if st0.status = 304 then { (bodyClear st0 true) with finished := true }
-    else if st0.status = 200 then st0
-    else if st0.status ≥ 400 && st0.status < 600 then staticErrdoc st0
-    else st0
-  let st2 := mergeTrailers cfg st1
-  let noLen := !hasHdr st2.headers nContentLength && !hasHdr st2.headers nTransferEncoding
-  let st3 : St :=
-    if st2.finished then
-      if noLen then
-        if st2.wq.length > 0 then
-          { st2 with headers := hdrSet st2.headers (ofString "Content-Length") (natToDec st2.wq.length) }
-        else if !cfg.head && st2.status ≠ 204 && st2.status ≠ 304 then
-          { st2 with headers := hdrSet st2.headers (ofString "Content-Length") (ofString "0") }
-        else st2
-      else st2
-    else if cfg.ver ≥ 2 then st2
-    else if noLen && !hasHdr st2.headers nUpgrade then
-      if cfg.ver = 1 then
-        let qlen0 := st2.wq.length
-        -- reconstitute the partially decoded chunk when passing chunked encoding through
-        let (qlen, tail) : Nat × Bytes :=
-          if st2.decodeChunked then
-            match st2.dc with
-            | some d =>
-              if dcTe d.mode ≥ 2 then (qlen0 + (dcTe d.mode - 2), [])
-              else if dcTe d.mode = 1 then (qlen0, [cr])
-              else (qlen0, (if qlen0 ≠ 0 then crlf else []) ++ dcBuf d.mode)
-            | none => (qlen0, [])
-          else (qlen0, if qlen0 ≠ 0 then crlf else [])
-        let body := st2.wq ++ tail
-        let wq' := if qlen ≠ 0 then hexLcEven qlen ++ crlf ++ body else body
-        { st2 with sendChunked := true, wq := wq',
-                   headers := hdrAppend st2.headers (ofString "Transfer-Encoding") (ofString "chunked") }
-      else { st2 with keepAlive := false }
-    else st2
-  if cfg.head then { (bodyClear st3 true) with finished := true } else st3
+def writePrepare (cfg : Cfg) (st : St) : St :=
+  wpHead cfg (wpLength cfg (mergeTrailers cfg (wpStatus st)))
 
 def omitHeader (k : Bytes) : Bool :=
   let lk := lower k
@@ -660,18 +676,28 @@ def omitHeader (k : Bytes) : Bool :=
 
 def dateLine : Bytes := ofString "\r\nDate: Sun, 09 Sep 2001 01:46:40 GMT"
 
-/-- h1_send_headers(): serialise the response head in front of the queued body -/
-def h1SendHeaders (cfg : Cfg) (st : St) : St :=
+/-- h1_send_headers(), the response fields: Connection as the keep-alive decision demands -/
+def h1HeaderSet (cfg : Cfg) (st : St) : List (Bytes × Bytes) :=
   let hs1 :=
     if !st.keepAlive then hdrSet st.headers (ofString "Connection") (ofString "close")
     else if cfg.ver = 0 then hdrSet st.headers (ofString "Connection") (ofString "keep-alive")
     else st.headers
-  let hs2 := if st.status = 304 && hasHdr hs1 nContentEncoding then hdrUnset hs1 nContentEncoding else hs1
-  let head := (if cfg.ver = 1 then ofString "HTTP/1.1 " else ofString "HTTP/1.0 ") ++ statusText st.status ++
-    (hs2.flatMap fun kv =>
-      if kv.1.isEmpty || kv.2.isEmpty || omitHeader kv.1 then [] else crlf ++ kv.1 ++ [colon, sp] ++ kv.2) ++
-    (if hasHdr hs2 nDate then [] else dateLine) ++ crlf ++ crlf
-  { st with headers := hs2, wq := head ++ st.wq, hdrSent := true }
+  if st.status = 304 && hasHdr hs1 nContentEncoding then hdrUnset hs1 nContentEncoding else hs1
+
+/-- the field lines of the response head (each preceded by CRLF), Date added when missing -/
+def h1FieldLines (hs : List (Bytes × Bytes)) : Bytes :=
+  (hs.flatMap fun kv =>
+    if kv.1.isEmpty || kv.2.isEmpty || omitHeader kv.1 then [] else crlf ++ kv.1 ++ [colon, sp] ++ kv.2) ++
+  (if hasHdr hs nDate then [] else dateLine)
+
+def h1StatusLine (cfg : Cfg) (status : Nat) : Bytes :=
+  (if cfg.ver = 1 then ofString "HTTP/1.1 " else ofString "HTTP/1.0 ") ++ statusText status
+
+/-- h1_send_headers(): serialise the response head in front of the queued body -/
+def h1SendHeaders (cfg : Cfg) (st : St) : St :=
+  let hs := h1HeaderSet cfg st
+  { st with headers := hs, hdrSent := true,
+            wq := h1StatusLine cfg st.status ++ h1FieldLines hs ++ crlf ++ crlf ++ st.wq }
 
 /-! ## the connection state machine around it -/
 
@@ -685,43 +711,38 @@ def handlerStarts (cfg : Cfg) (st : St) : Bool :=
 
 def flush (st : St) : St := { st with evs := pushW st.evs st.wq, wq := [] }
 
+/-- how an HTTP/2 stream ends: END_STREAM on DATA, or on the trailers of a chunked backend body -/
+def endStreamEv (st : St) : Ev :=
+  if st.dc.isSome && st.dcDone ≠ 0 then
+    (if (dcTrailerFields st.trailerBuf).isEmpty then .endStream else .trailers (dcTrailerFields st.trailerBuf))
+  else .endStream
+
+/-- HTTP/2 stream in the write state: DATA as far as allowed, END_STREAM when finished -/
+def h2Progress (cfg : Cfg) (st : St) : St :=
+  let st1 := if st.finished || cfg.streaming then flush st else st
+  if st1.finished then { st1 with cstate := .done, evs := st1.evs ++ [endStreamEv st1] } else st1
+
+/-- HTTP/1.x connection in the write state: write what is queued; response end when finished -/
+def h1Progress (st : St) : St :=
+  let st1 := flush st
+  if st1.finished then { st1 with cstate := .done } else st1
+
+/-- response start: http_response_handler() tail, then h1_send_headers() / h2_send_headers() -/
+def startResponse (cfg : Cfg) (st : St) : St :=
+  let st1 : St := if st.status = 0 then { st with status := 200 } else st
+  let st2 := writePrepare cfg st1
+  if cfg.ver ≥ 2 then
+    h2Progress cfg { st2 with evs := st2.evs ++ [.hdrs st2.status (renderHdrs st2.headers)], hdrSent := true,
+                              cstate := .write }
+  else h1Progress { (h1SendHeaders cfg st2) with cstate := .write }
+
 /-- run the client side after a backend event has been processed -/
 def conStep (cfg : Cfg) (st : St) : St :=
   match st.cstate with
   | .done => st
   | .redispatch => st
-  | .handle =>
-    if !handlerStarts cfg st then st
-    else
-      let st1 : St := if st.status = 0 then { st with status := 200 } else st
-      let st2 := writePrepare cfg st1
-      if cfg.ver ≥ 2 then
-        let st3 : St := { st2 with evs := st2.evs ++ [.hdrs st2.status (renderHdrs st2.headers)], hdrSent := true,
-                                   cstate := .write }
-        let st4 := if st3.finished || cfg.streaming then flush st3 else st3
-        if st4.finished then
-          { st4 with cstate := .done,
-                     evs := st4.evs ++ [if st4.dc.isSome && st4.dcDone ≠ 0 then
-                                          (if (dcTrailerFields st4.trailerBuf).isEmpty then .endStream
-                                           else .trailers (dcTrailerFields st4.trailerBuf))
-                                        else .endStream] }
-        else st4
-      else
-        let st3 := flush { (h1SendHeaders cfg st2) with cstate := .write }
-        if st3.finished then { st3 with cstate := .done } else st3
-  | .write =>
-    if cfg.ver ≥ 2 then
-      let st1 := if st.finished || cfg.streaming then flush st else st
-      if st1.finished then
-        { st1 with cstate := .done,
-                   evs := st1.evs ++ [if st1.dc.isSome && st1.dcDone ≠ 0 then
-                                        (if (dcTrailerFields st1.trailerBuf).isEmpty then .endStream
-                                         else .trailers (dcTrailerFields st1.trailerBuf))
-                                      else .endStream] }
-      else st1
-    else
-      let st1 := flush st
-      if st1.finished then { st1 with cstate := .done } else st1
+  | .handle => if handlerStarts cfg st then startResponse cfg st else st
+  | .write => if cfg.ver ≥ 2 then h2Progress cfg st else h1Progress st
 
 /-- http_response_handler() finds handler_module NULL before the response started (an unusable
     Status field inside a 1xx block clears it while the backend context lives on): it would run
